@@ -36,12 +36,21 @@ func (e *Exec) deepEq(a, b Value) *smt.Term {
 	case *smt.Term:
 		return smt.Eq(x, b.(*smt.Term))
 	case Str:
-		return e.viewEq(strView(x), strView(b.(Str)))
+		eq := e.viewEq(strView(x), strView(b.(Str)))
+		if e.jsonEqDepth > 0 {
+			// inside JSON text: encoding/json writes every byte that is not valid UTF-8 as U+FFFD
+			return smt.Or(eq, e.jsonCoercedEq(strView(x), strView(b.(Str))))
+		}
+		return eq
 	case Bytes:
 		y := b.(Bytes)
 		if x.Blob != nil && y.Blob != nil {
 			if x.Blob.LenPfx != y.Blob.LenPfx || x.Blob.Kind != y.Blob.Kind {
 				return smt.False
+			}
+			if x.Blob.Kind == "json" {
+				e.jsonEqDepth++
+				defer func() { e.jsonEqDepth-- }()
 			}
 			return e.deepEq(x.Blob.Val, y.Blob.Val)
 		}
@@ -113,6 +122,35 @@ func (e *Exec) deepEq(a, b Value) *smt.Term {
 		return smt.BoolConst(b == nil)
 	}
 	panic(engineErr("deepEq on %T", a))
+}
+
+// jsonCoercedEq is a sufficient condition for two different Go strings to have the same JSON text:
+// equal length (at most jsonCoerceMax bytes) and, position by position, equal bytes or two bytes
+// from 0xF8..0xFF. Such a byte is never part of a valid UTF-8 sequence in any context, the decoder
+// consumes exactly that byte and encoding/json (and amino-JSON, which uses it for strings) emits
+// U+FFFD for it. Other ways of colliding through U+FFFD (truncated sequences, surrogates) are not
+// modelled: the model under-approximates collisions, it never invents one.
+const jsonCoerceMax = 12
+
+var asciiEncoders = map[string]bool{"bech32enc": true, "b58enc": true, "b64enc": true, "hexenc": true, "fmtuint10": true, "fmtuint16": true}
+
+func (e *Exec) jsonCoercedEq(a, b view) *smt.Term {
+	// outputs of bech32 / decimal / base58 / base64 / hex encoders are ASCII by their contract
+	for _, v := range []view{a, b} {
+		if t, ok := v.wholeAtom(); ok {
+			if containsTerm(e.bech32Atoms, t) || containsTerm(e.digitAtoms, t) || (t.Op == "uf" && asciiEncoders[t.Name]) {
+				return smt.False
+			}
+		}
+	}
+	cs := []*smt.Term{smt.Eq(a.Len, b.Len), smt.ULe(a.Len, c64(jsonCoerceMax))}
+	hi := smt.Const(0xF8, 8)
+	for i := 0; i < jsonCoerceMax; i++ {
+		x, y := a.at(c64(i)), b.at(c64(i))
+		cs = append(cs, smt.Implies(smt.ULt(c64(i), a.Len), smt.Or(smt.Eq(x, y), smt.And(smt.UGe(x, hi), smt.UGe(y, hi)))))
+	}
+	e.Notes["JSON model: strings are encoded injectively except that bytes 0xF8..0xFF are all written as U+FFFD (encoding/json coerces invalid UTF-8); modelled for strings of at most 12 bytes"] = true
+	return smt.And(cs...)
 }
 
 func (e *Exec) b58enc(b *smt.Term) *smt.Term {
@@ -468,6 +506,25 @@ func init() {
 		iv := args[0].(Iface)
 		if iv.Typ == nil {
 			return Tuple{e.makeJSONBlob(constStr("null"), types.Typ[types.String]), nilErr()}
+		}
+		return Tuple{e.makeJSONBlob(iv.Val, iv.Typ), nilErr()}
+	}
+}
+
+func init() {
+	// the bare amino codec (codec.LegacyAmino) encodes like the AminoCodec wrapper
+	stubs["(*github.com/cosmos/cosmos-sdk/codec.LegacyAmino).MustMarshalJSON"] = func(e *Exec, fn *ssa.Function, args []Value) Value {
+		iv := args[1].(Iface)
+		if iv.Typ == nil {
+			e.goPanicf("MustMarshalJSON(nil)")
+		}
+		e.Notes["stub amino MustMarshalJSON / MustSortJSON / encoding/json.Marshal: the JSON text is an injective function of the encoded value, where hand-written MarshalJSON methods of the repository are executed"] = true
+		return e.makeJSONBlob(iv.Val, iv.Typ)
+	}
+	stubs["(*github.com/cosmos/cosmos-sdk/codec.LegacyAmino).MarshalJSON"] = func(e *Exec, fn *ssa.Function, args []Value) Value {
+		iv := args[1].(Iface)
+		if iv.Typ == nil {
+			return Tuple{Bytes{Nil: true, Off: c0, Len: c0, Cap: c0}, e.newErr("MarshalJSON(nil)")}
 		}
 		return Tuple{e.makeJSONBlob(iv.Val, iv.Typ), nilErr()}
 	}
